@@ -192,4 +192,88 @@ example : (D4Witness.cqm0.fixVariable 0 2).obj.qb.off = 17 := D4Witness.fix_inpl
 example : (D4Witness.cqm0.fixVariables [(0, 2)]).obj.qb.off = 17 := D4Witness.fix_copy_value
 example : polySpec (fun _ => 0) (polyFixVariables C03Witness.p [(0, 1)]) = 6 := C03Witness.d5_new_value
 
+/-! ## several variables: the fold over the pairs = simultaneous substitution, in any order; every variable fixed -/
+
+/-- **order independence, BQM / QM**: `fix_variables` over two orderings of the same duplicate-free pairs both succeed, leave
+    the same set of labels, and — evaluated by label at any valuation that gives the fixed labels their values — both
+    results have the energy of the original at that valuation (simultaneous substitution), hence of each other -/
+theorem qm_fix_order_independent (m : QmL R) (hm : m.Ok) (f1 f2 : List (Label × R)) (hp : f1.Perm f2)
+    (hfd : (f1.map (·.1)).Nodup) (hall : ∀ p ∈ f1, p.1 ∈ m.labels) (val : Label → R) (hval : ∀ p ∈ f1, val p.1 = p.2) :
+    (m.fixVariables f1).2 = true ∧ (m.fixVariables f2).2 = true ∧
+    (∀ l, l ∈ (m.fixVariables f1).1.labels ↔ l ∈ (m.fixVariables f2).1.labels) ∧
+    (m.fixVariables f1).1.qb.energy (valL val (m.fixVariables f1).1.labels) = m.qb.energy (valL val m.labels) ∧
+    (m.fixVariables f2).1.qb.energy (valL val (m.fixVariables f2).1.labels) = m.qb.energy (valL val m.labels) := by
+  have hfd2 : (f2.map (·.1)).Nodup := (hp.map (·.1)).nodup_iff.mp hfd
+  have hall2 : ∀ p ∈ f2, p.1 ∈ m.labels := fun p h => hall p (hp.mem_iff.mpr h)
+  have hval2 : ∀ p ∈ f2, val p.1 = p.2 := fun p h => hval p (hp.mem_iff.mpr h)
+  obtain ⟨a1, _, _, a4, a5⟩ := qm_fix_many_eval m hm f1 hfd hall val hval
+  obtain ⟨b1, _, _, b4, b5⟩ := qm_fix_many_eval m hm f2 hfd2 hall2 val hval2
+  refine ⟨a1, b1, fun l => ?_, a5, b5⟩
+  rw [a4 l, b4 l]
+  have : l ∈ f1.map (·.1) ↔ l ∈ f2.map (·.1) := (hp.map (·.1)).mem_iff
+  rw [this]
+
+/-- **every variable fixed, BQM / QM** (`fix_all_vars_const`): no variable is left and the model is the constant — its offset,
+    and its energy at any sample — equal to the original's energy at the fixed values -/
+theorem qm_fix_all_vars_const (m : QmL R) (hm : m.Ok) (fixed : List (Label × R)) (hfd : (fixed.map (·.1)).Nodup)
+    (hall : ∀ p ∈ fixed, p.1 ∈ m.labels) (hcover : ∀ l ∈ m.labels, l ∈ fixed.map (·.1))
+    (val : Label → R) (hval : ∀ p ∈ fixed, val p.1 = p.2) :
+    (m.fixVariables fixed).1.labels = [] ∧ (m.fixVariables fixed).1.qb.off = m.qb.energy (valL val m.labels) ∧
+    ∀ x, (m.fixVariables fixed).1.qb.energy x = m.qb.energy (valL val m.labels) := by
+  obtain ⟨_, a2, _, a4, a5⟩ := qm_fix_many_eval m hm fixed hfd hall val hval
+  have hnil : (m.fixVariables fixed).1.labels = [] := by
+    apply List.eq_nil_iff_forall_not_mem.mpr
+    intro l hl
+    have := (a4 l).mp hl
+    exact this.2 (hcover l this.1)
+  have hlin : (m.fixVariables fixed).1.qb.lin = [] := by
+    have := a2.len
+    rw [hnil] at this
+    exact List.length_eq_zero_iff.mp this.symm
+  have hconst : ∀ x, (m.fixVariables fixed).1.qb.energy x = (m.fixVariables fixed).1.qb.off := by
+    intro x
+    unfold QMB.energy
+    cases (m.fixVariables fixed).1.qb.adj <;> simp [hlin, QMB.adjLoop, QMB.linLoop]
+  refine ⟨hnil, ?_, fun x => ?_⟩
+  · rw [← hconst (valL val (m.fixVariables fixed).1.labels)]; exact a5
+  · rw [hconst x, ← hconst (valL val (m.fixVariables fixed).1.labels)]; exact a5
+
+/-- **order independence, CQM in place**: for two orderings of the same pairs both runs succeed, keep the same labels and
+    constraint labels, and the objective and every constraint left-hand side of both results — evaluated by label — equal
+    those of the original at the valuation (sense / rhs / weight / penalty unchanged: `CqmC.Rel`) -/
+theorem cqm_fix_order_independent [DecidableEq R] (m : CqmL R) (hm : m.c.WF) (hnd : m.labels.Nodup) (f1 f2 : List (Label × R))
+    (hp : f1.Perm f2) (hfd : (f1.map (·.1)).Nodup) (hall : ∀ p ∈ f1, p.1 ∈ m.labels) (val : Label → R)
+    (hval : ∀ p ∈ f1, val p.1 = p.2) :
+    (m.fixVariablesInplace f1).2 = true ∧ (m.fixVariablesInplace f2).2 = true ∧
+    (∀ l, l ∈ (m.fixVariablesInplace f1).1.labels ↔ l ∈ (m.fixVariablesInplace f2).1.labels) ∧
+    (m.fixVariablesInplace f1).1.clabels = (m.fixVariablesInplace f2).1.clabels ∧
+    CqmC.Rel (m.fixVariablesInplace f1).1.c m.c (valL val (m.fixVariablesInplace f1).1.labels) (valL val m.labels) ∧
+    CqmC.Rel (m.fixVariablesInplace f2).1.c m.c (valL val (m.fixVariablesInplace f2).1.labels) (valL val m.labels) := by
+  have hfd2 : (f2.map (·.1)).Nodup := (hp.map (·.1)).nodup_iff.mp hfd
+  have hall2 : ∀ p ∈ f2, p.1 ∈ m.labels := fun p h => hall p (hp.mem_iff.mpr h)
+  have hval2 : ∀ p ∈ f2, val p.1 = p.2 := fun p h => hval p (hp.mem_iff.mpr h)
+  obtain ⟨a1, _, _, _, a5, a6, a7⟩ := cqm_fix_many_inplace_eval m hm hnd f1 hfd hall val hval
+  obtain ⟨b1, _, _, _, b5, b6, b7⟩ := cqm_fix_many_inplace_eval m hm hnd f2 hfd2 hall2 val hval2
+  refine ⟨a1, b1, fun l => ?_, by rw [a6, b6], a7, b7⟩
+  rw [a5 l, b5 l]
+  have : l ∈ f1.map (·.1) ↔ l ∈ f2.map (·.1) := (hp.map (·.1)).mem_iff
+  rw [this]
+
+/-- **every variable of the CQM fixed in place**: no variable is left; objective and every left-hand side are the values
+    of the original at the fixed values, whatever sample they are evaluated at afterwards is irrelevant for the labels
+    (there are none), attributes unchanged -/
+theorem cqm_fix_all_vars [DecidableEq R] (m : CqmL R) (hm : m.c.WF) (hnd : m.labels.Nodup) (fixed : List (Label × R))
+    (hfd : (fixed.map (·.1)).Nodup) (hall : ∀ p ∈ fixed, p.1 ∈ m.labels) (hcover : ∀ l ∈ m.labels, l ∈ fixed.map (·.1))
+    (val : Label → R) (hval : ∀ p ∈ fixed, val p.1 = p.2) :
+    (m.fixVariablesInplace fixed).1.labels = [] ∧
+    CqmC.Rel (m.fixVariablesInplace fixed).1.c m.c (valL val []) (valL val m.labels) := by
+  obtain ⟨_, _, _, _, a5, _, a7⟩ := cqm_fix_many_inplace_eval m hm hnd fixed hfd hall val hval
+  have hnil : (m.fixVariablesInplace fixed).1.labels = [] := by
+    apply List.eq_nil_iff_forall_not_mem.mpr
+    intro l hl
+    have := (a5 l).mp hl
+    exact this.2 (hcover l this.1)
+  rw [hnil] at a7
+  exact ⟨hnil, a7⟩
+
 end C03
